@@ -79,6 +79,9 @@ def run_cycle(b: Batch, r, led, kind="inotify"):
                 b.violation("descriptor-leak", f"unschedule({arg}) returned with descriptors {left} of that watch still open", witness={"log": c.log})
     out = c.finish()
     judge(b, out, c.log, {"cycle": True, "kind": kind}, None)
+    if failing and len(b.samples) < 1:
+        b.sample({"cycle": [(x["op"], x["arg"], x["status"], x.get("exc", "")[:60]) for x in c.log], "descriptors_open_at_end": out["fds_open"],
+                  "library_threads_alive_at_end": len(out["threads_alive"])})
     if failing:
         b.count("cycles_with_failing_call")
         b.nontrivial(["cycle", [(x["op"], x["arg"], x["status"]) for x in c.log]])
@@ -242,7 +245,7 @@ def run_batch(spec):
             if b.expired():
                 break
             run_cycle(b, r, led)
-        b.sample({"cycle_alphabet": [list(x) for x in c06.ALPHA] + [["schedule", "file"]]})
+        pass
     elif k == "inject":
         nd = spec["ndirs"]
         for running in (True, False):
@@ -273,6 +276,9 @@ def run_batch(spec):
                         if out["reached"]:
                             b.add("hold_points_reached", f"{pt[0]}:{pt[1]}:{pt[2]}")
                             b.nontrivial(["hold", list(map(str, pt)), nth, partner, ev])
+                            if len(b.samples) < 1:
+                                b.sample({"hold": {"thread": pt[0], "function": pt[1], "line": pt[2], "nth_arrival": nth, "partner": partner, "event_in_buffer": ev},
+                                          "calls": [(x["op"], x["status"]) for x in out["log"]]})
     elif k == "inj1":
         run_injection(b, led, spec["ndirs"], spec["where"], spec["k"], spec["errno"], spec["running"])
     elif k == "hold1":
